@@ -213,3 +213,117 @@ def compare(code, cap):
                 out.append(dict(state=sid, byte=b, what='on byte %d the code goes to %s, the graph to %s' % (b, e['next'][b], want)))
                 break
     return out
+
+
+# ---------------------------------------------------------------------------------------------------
+# The rendering *predicted* by the Lean model (LogosModel/Emit.lean, driver query EMIT) against the text
+# ---------------------------------------------------------------------------------------------------
+def _lut_id(t, mask):
+    return int(t) * 8 + (int(mask).bit_length() - 1)
+
+
+def _cond_plan(cond):
+    cond = cond.strip()
+    m = re.fullmatch(r'_TABLE_(\d+) \[byte as :: core :: primitive :: usize\] & (\d+)u8 != 0', cond)
+    if m:
+        return 'L%d' % _lut_id(m.group(1), m.group(2))
+    parts, depth, cur = [], 0, ''
+    for ch in cond:
+        if ch == '(':
+            depth += 1
+        if ch == ')':
+            depth -= 1
+        cur += ch
+        if depth == 0 and cur.endswith('||'):
+            parts.append(cur[:-2].strip())
+            cur = ''
+    if cur.strip():
+        parts.append(cur.strip())
+    out = []
+    for p in parts:
+        p = p.strip()[1:-1].strip()
+        m = re.fullmatch(r'byte == (\S+)', p)
+        if m:
+            v = lit(m.group(1))
+            out.append('%d-%d' % (v, v))
+            continue
+        m = re.fullmatch(r':: core :: matches ! \(byte , (\S+) \.\.= (\S+)\)((?: && byte != \S+)*)', p)
+        if not m:
+            raise ValueError('condition ' + p)
+        exc = [lit(x) for x in re.findall(r'&& byte != (\S+)', m.group(3))]
+        out.append('%d-%d' % (lit(m.group(1)), lit(m.group(2))) + ''.join('!%d' % e for e in exc))
+    return 'C' + '|'.join(out)
+
+
+def extract_plan(code):
+    """the rendering decisions read off the generated text, in the format of the driver's EMIT answer"""
+    code = code.replace("b'{'", '123u8').replace("b'}'", '125u8')
+    luts = {}
+    for m in re.finditer(r'const _TABLE_(\d+) : \[:: core :: primitive :: u8 ; 256\] = \[([^\]]*)\]', code):
+        luts[int(m.group(1))] = [int(x.strip()[:-2]) for x in m.group(2).split(',') if x.strip()]
+    sm = 'enum LogosState' in code
+    bodies = []
+    if sm:
+        for m in re.finditer(r'LogosState :: State(\d+) => \{', code):
+            j = m.end() - 1
+            bodies.append((int(m.group(1)), code[j:block_end(code, j)]))
+        goto = r'state = LogosState :: State(\d+) ; continue ;'
+    else:
+        for m in re.finditer(r'fn state(\d+) <[^{]*\{', code):
+            j = m.end() - 1
+            bodies.append((int(m.group(1)), code[j:block_end(code, j)]))
+        goto = r'return state(\d+) \(lex , offset , context\) ;'
+    items = {}
+    for sid, body in bodies:
+        loop = '-'
+        m = re.search(r'_TABLE_(\d+) \[byte as :: core :: primitive :: usize\] & (\d+)u8 == 0 \} _fast_loop ! \(lex , loop_test , offset\) ;', body)
+        if m:
+            loop = str(_lut_id(m.group(1), m.group(2)))
+        k = body.index('if let _Option :: Some (byte) = other {')
+        j = body.index('{', k)
+        some_blk = body[j + 1:block_end(body, j) - 1]
+        if 'TABLE [byte as :: core :: primitive :: usize]' in some_blk:
+            m = re.search(r'const TABLE : \[[^;]*; 256\] = (?:\{ use LogosNextState :: \* ; )?\[([^\]]*)\]', some_blk)
+            ents = [x.strip() for x in m.group(1).split(',') if x.strip()]
+            tab = []
+            for en in ents:
+                mm = re.search(r'State(\d+)', en)
+                tab.append(mm.group(1) if mm else '-')
+            fork = 'T' + ','.join(tab)
+        else:
+            conds = []
+            for m in re.finditer(r'if (.*?) \{ offset \+= 1 ; ' + goto + r' \}', some_blk):
+                conds.append('%s>%s' % (_cond_plan(m.group(1)), m.group(2)))
+            fork = 'M' + ';'.join(conds)
+        items[sid] = '%d:%s:%s' % (sid, loop, fork)
+    # look-up tables by id: bit (id % 8) of table (id // 8)
+    nl = 0
+    for t, arr in luts.items():
+        used = 0
+        for v in arr:
+            used |= v
+        nl = max(nl, t * 8 + used.bit_length())
+    lut_hex = []
+    for i in range(nl):
+        arr = luts[i // 8]
+        bits = [(arr[b] >> (i % 8)) & 1 for b in range(256)]
+        hx = ''
+        for q in range(0, 256, 4):
+            hx += '%x' % (bits[q] * 8 + bits[q + 1] * 4 + bits[q + 2] * 2 + bits[q + 3])
+        lut_hex.append(hx)
+    return ' '.join(items[k] for k in sorted(items)) + ' LUTS ' + ' '.join(lut_hex)
+
+
+def compare_plan(code, predicted):
+    """-> None if the text shows exactly the predicted decisions, else a short description of the first difference"""
+    try:
+        got = extract_plan(code)
+    except Exception as ex:
+        return 'generated code has an unexpected shape: %r' % (ex,)
+    if got == predicted:
+        return None
+    ga, pa = got.split(' '), predicted.split(' ')
+    for k, (x, y) in enumerate(zip(ga, pa)):
+        if x != y:
+            return 'item %d: code has %s, model predicts %s' % (k, x[:160], y[:160])
+    return 'different number of items: code %d, model %d' % (len(ga), len(pa))
